@@ -118,3 +118,101 @@ theorem writeAll_spec : ∀ (fuel : Nat) (out : List Nat) (limit : Nat) (sched :
             conv => rhs; rw [e, List.take_add]
 
 end Sucds.Io
+
+namespace Sucds.Io
+
+theorem write_sched_le (w : Writer) (buf : List Nat) : (w.write buf).2.sched.length ≤ w.sched.length := by
+  unfold Writer.write
+  cases hs : w.sched with
+  | nil => simp only []; split <;> simp
+  | cons ev s =>
+    cases ev with
+    | eintr => simp
+    | chunk n => simp only []; split <;> simp
+
+theorem writeAll_sched_le : ∀ (fuel : Nat) (w : Writer) (buf : List Nat),
+    (writeAll w buf fuel).2.sched.length ≤ w.sched.length := by
+  intro fuel
+  induction fuel with
+  | zero => intro w buf; simp [writeAll]
+  | succ fuel ih =>
+    intro w buf
+    unfold writeAll
+    by_cases hb : buf = []
+    · simp [hb]
+    · simp only [hb, if_false]
+      have hw := write_sched_le w buf
+      cases hr : w.write buf with
+      | mk r w' =>
+        rw [hr] at hw
+        simp only at hw
+        cases r with
+        | none => exact Nat.le_trans (ih w' buf) hw
+        | some r' =>
+          cases r' with
+          | none => exact hw
+          | some k =>
+            cases k with
+            | zero => exact hw
+            | succ k => exact Nat.le_trans (ih w' _) hw
+
+/-- `serialize_into` of a structure is a sequence of `write_all` calls (one per primitive), stopping at the first
+    error (`?`): `true` = `Ok` -/
+def writeChunks : Writer → List (List Nat) → Nat → Bool × Writer
+  | w, [], _ => (true, w)
+  | w, c :: cs, fuel =>
+    match writeAll w c fuel with
+    | (true, w') => writeChunks w' cs fuel
+    | (false, w') => (false, w')
+
+/-- however the bytes are cut into `write_all` calls and whatever the schedule of short writes and interruptions:
+    the serialization succeeds iff all the bytes fit below the failure point, having written exactly all of them; and
+    otherwise it returns `Err` having written exactly the first `limit` bytes -/
+theorem writeChunks_spec : ∀ (chunks : List (List Nat)) (out : List Nat) (limit : Nat) (sched : List Ev) (fuel : Nat),
+    (∀ c ∈ chunks, sched.length + c.length < fuel) → out.length ≤ limit →
+    (out.length + chunks.flatten.length ≤ limit →
+      ∃ s', writeChunks ⟨out, limit, sched⟩ chunks fuel = (true, ⟨out ++ chunks.flatten, limit, s'⟩)) ∧
+    (limit < out.length + chunks.flatten.length →
+      ∃ s', writeChunks ⟨out, limit, sched⟩ chunks fuel =
+        (false, ⟨out ++ chunks.flatten.take (limit - out.length), limit, s'⟩)) := by
+  intro chunks
+  induction chunks with
+  | nil =>
+    intro out limit sched fuel _ _
+    exact ⟨fun _ => ⟨sched, by simp [writeChunks]⟩, fun h => by simp at h; omega⟩
+  | cons c cs ih =>
+    intro out limit sched fuel hf hol
+    have hc := hf c (by simp)
+    obtain ⟨w1, w2⟩ := writeAll_spec fuel out limit sched c hc hol
+    have hsl := writeAll_sched_le fuel ⟨out, limit, sched⟩ c
+    simp only [List.flatten_cons, List.length_append]
+    by_cases hfit : out.length + c.length ≤ limit
+    · obtain ⟨s1, e1⟩ := w1 hfit
+      rw [e1] at hsl; simp only at hsl
+      have hf' : ∀ c' ∈ cs, s1.length + c'.length < fuel := fun c' hc' => by
+        have := hf c' (by simp [hc']); omega
+      have hl : (out ++ c).length = out.length + c.length := List.length_append
+      obtain ⟨i1, i2⟩ := ih (out ++ c) limit s1 fuel hf' (by rw [hl]; omega)
+      simp only [writeChunks, e1]
+      refine ⟨?_, ?_⟩
+      · intro h
+        obtain ⟨s', e⟩ := i1 (by rw [hl]; omega)
+        exact ⟨s', by rw [e, List.append_assoc]⟩
+      · intro h
+        obtain ⟨s', e⟩ := i2 (by rw [hl]; omega)
+        refine ⟨s', ?_⟩
+        rw [e, List.append_assoc]
+        congr 3
+        rw [List.take_append]
+        rw [hl]
+        have : limit - out.length - c.length = limit - (out.length + c.length) := by omega
+        rw [List.take_of_length_le (show c.length ≤ limit - out.length by omega), this]
+    · have hov : limit < out.length + c.length := by omega
+      obtain ⟨s1, e1⟩ := w2 hov
+      simp only [writeChunks, e1]
+      refine ⟨fun h => by omega, fun _ => ⟨s1, ?_⟩⟩
+      congr 3
+      rw [List.take_append]
+      have : limit - out.length - c.length = 0 := by omega
+      rw [this]; simp
+end Sucds.Io
